@@ -130,10 +130,16 @@ func (c connectUnaryGetClientProtocol) prepareUnmarshalledRequest(op *operation,
 	} else {
 		msgData = ([]byte)(msgStr)
 	}
+	// The message is subject to the same limit as one that arrives in the
+	// body of a POST.
+	limit := op.decompressLimit()
+	if int64(len(msgData)) > limit {
+		return bufferLimitError(limit)
+	}
 	if op.client.reqCompression != nil && len(msgData) > 0 {
 		dst := op.bufferPool.Get()
 		defer op.bufferPool.Put(dst)
-		if err := op.client.reqCompression.decompressLimited(dst, bytes.NewBuffer(msgData), op.decompressLimit()); err != nil {
+		if err := op.client.reqCompression.decompressLimited(dst, bytes.NewBuffer(msgData), limit); err != nil {
 			return err
 		}
 		msgData = dst.Bytes()
